@@ -87,6 +87,61 @@ def oracle(ops, resp):
     return None
 
 
+def run_concurrent(ctx, nsessions):
+    """K two-way calls in flight at once through one client over one adapter transport: every caller's FContext comes
+    back with ITS handler's response headers and ITS correlation id, and its handler saw ITS request headers."""
+    import os
+    from props import headers_common as hc
+    rng = ctx.rng
+    reqs = []
+    for si in range(nsessions):
+        k = rng.randrange(2, 9)
+        same_size = rng.random() < 0.5          # equal-sized replies: the case in which a reused buffer goes unnoticed
+        size = rng.randrange(0, 300)
+        calls = []
+        for i in range(k):
+            cid = ("s%dc%d-" % (si, i)).encode() + cc.rval(rng)[:6]
+            calls.append({"cid": cid.hex(),
+                          "req": [[("q%d" % j).encode().hex(), cc.rval(rng).hex()] for j in range(rng.randrange(0, 3))],
+                          "hadd": [[("h%d" % j).encode().hex(), (b"%d/%d:" % (si, i) + cc.rval(rng)).hex()] for j in range(rng.randrange(1, 4))],
+                          "size": size if same_size else rng.randrange(0, 3000),
+                          "delay": rng.choice([0, 0, 50, 300])})
+        reqs.append({"calls": calls, "rounds": 3})
+    rc, resps, err = hc.run_lines([os.path.join(vlib.BIN, "vh_ctx"), "concurrent"], reqs, timeout=900)
+    ncalls = bad = 0
+    if len(resps) != len(reqs):
+        ctx.violation("C09 (concurrent calls): the harness process died", {"request": reqs[len(resps)] if len(resps) < len(reqs) else None,
+                                                                            "stderr": err[-1200:]})
+    for q, r in zip(reqs, resps):
+        if r.get("err"):
+            ctx.violation("C09 (concurrent calls): session could not be set up: %s" % r["err"], {"request": q})
+            continue
+        for rnd, outs in enumerate(r.get("rounds") or []):
+            for c, o in zip(q["calls"], outs):
+                ncalls += 1
+                why = None
+                want = {k: v for k, v in c["hadd"]}
+                want[b"_cid".hex()] = c["cid"]
+                got = {k: v for k, v in o.get("resp") or []}
+                seen = {k: v for k, v in o.get("seen") or []}
+                if o.get("err"):
+                    why = "call failed: %s" % o["err"]
+                elif got != want:
+                    why = "the caller's response headers are %s, its handler set %s" % (
+                        {bytes.fromhex(k): bytes.fromhex(v) for k, v in got.items()},
+                        {bytes.fromhex(k): bytes.fromhex(v) for k, v in want.items()})
+                elif any(seen.get(k) != v for k, v in c["req"]) or seen.get(b"_cid".hex()) != c["cid"]:
+                    why = "the handler did not see the caller's request headers"
+                if why:
+                    bad += 1
+                    ctx.violation("C09 (%d calls in flight over one adapter transport, round %d): %s" % (len(q["calls"]), rnd, why),
+                                  {"request": q, "call": c, "observed": o})
+    return {"sessions": len(reqs), "calls": ncalls, "failures": bad,
+            "rule": "2..8 calls in flight at once through one FStandardClient over one adapter transport (loopback TCP, FSimpleServer, "
+                    "FBaseProcessor), 3 rounds, own correlation id / request headers / handler response headers per call, equal-sized "
+                    "replies in half of the sessions; direct oracle only"}
+
+
 def run(ctx, br):
     rng = ctx.rng
     quick = ctx.tier == "quick"
@@ -117,12 +172,15 @@ def run(ctx, br):
                 rep["no_failing_input_found"] = True
                 rep["broken"] = "correspondence JContext.judge (send_request/send_response of Model/Context.v vs FProtocol)"
             ctx.violation("C09 correspondence: model and implementation disagree on a call", rep)
+    # several calls in flight at once over ONE adapter transport (TCP, FSimpleServer, FBaseProcessor): direct oracle only
+    conc_stats = run_concurrent(ctx, 25 if quick else 400)
     nhdr = [sum(1 for o in s if o["k"] == 2) for s in seqs]
     ctx.assumptions += ["context level: the header block written and read by the real FProtocol over a memory transport; the same bytes "
                         "travel on every transport and protocol (C04), end-to-end calls through generated code are C03",
                         "header block below 2^31 bytes"]
     return {
-        "evaluations": len(seqs),
+        "concurrent": conc_stats,
+        "evaluations": len(seqs) + conc_stats["calls"],
         "distinct_nontrivial": len({json.dumps(s) for s, k in zip(seqs, nhdr) if k >= 1}),
         "rule": "seeded calls: caller context with 0..5 user request headers (some sequences also write reserved names), correlation id, "
                 "timeouts incl. sub-millisecond, optional pre-existing response headers; real WriteRequestHeader -> bytes -> real "
